@@ -14,7 +14,7 @@ from vlib.shard import Acc
 PROP = "C08"
 META = {
     "level": "exploration",
-    "claim": "Held on the executed runs: after every event-intake and sync step of generated histories (mock and SQLite storage) the rows stored under the sync's tag decode to exactly the live entries field by field (paths, ids, hashes, sync markers, existence incl. corrupt marker, ignore reason, pending flag), with no stale or missing row and nothing left dirty; a state reloaded from a copy of storage answers id lookups, path lookups and the pending set like the live one; the codec product (hash/id/path/existence/ignore shapes, legacy rows) round-trips.",
+    "claim": "Held on the executed runs: after every event-intake and sync step of generated histories (mock and SQLite storage; every tenth history with an application translate that declines a folder one side has created, so that stored entries are written off as irrelevant) the rows stored under the sync's tag decode to exactly the live entries field by field (paths, ids, hashes, sync markers, existence incl. corrupt marker, ignore reason, pending flag), with no stale or missing row and nothing left dirty; a state reloaded from a copy of storage answers id lookups, path lookups and the pending set like the live one; the codec product (hash/id/path/existence/ignore shapes, legacy rows) round-trips.",
     "note": "Trusted: msgpack decoding of rows by the oracle; comparison restricted to the fields the statement lists (priority, temp file and last-gotten stamps are not compared). No faults are injected here (a failing step legitimately leaves uncommitted changes).",
     "technique": "runtime monitoring: storage-vs-memory equality walked after every engine step + reload equivalence + exhaustive-small codec product",
     "plan": {"quick": {"shards": 16, "timeout": 600, "cases": 6000, "codec": 1},
@@ -43,7 +43,20 @@ def run(case, acc=None, count=True):
     def fac():
         mons[:] = [O.PersistMonitor(reload_every=5)]
         return mons
-    probs = E.run_one(case, acc, evaluate, monitors_factory=fac, sim_kwargs={"storage": storage}, count=count)
+    kw = {"storage": storage}
+    if case.get("index", 0) % 10 == 2:
+        # every tenth case: the application's translate declines the folder 'private', which one side creates with a file
+        # in it first (entries that are stored on intake and written off as irrelevant by a later sync step)
+        from props import c12
+        kw["translate"] = c12.declining_translate
+        side = (case.get("index", 0) // 10) % 2
+        case = dict(case)
+        case["sched"] = [["U", {"side": side, "op": "mkdir", "path": "private", "obj": 0}],
+                         ["U", {"side": side, "op": "create", "path": "private/secret.txt", "data": b"secret", "obj": 0}],
+                         ["S"], ["E%d" % side], ["E%d" % side], ["S"], ["S"]] + case["sched"]
+        if count:
+            acc.count("cases_with_declined_folder")
+    probs = E.run_one(case, acc, evaluate, monitors_factory=fac, sim_kwargs=kw, count=count)
     if count and mons:
         acc.count("persist_checks", mons[0].checks)
         acc.count("reload_checks", mons[0].reloads)
